@@ -81,12 +81,6 @@ def fragTok (tbl : List Gen.Entry) (t : Token) : Bool :=
       | some e => elemOK e || coreEntryOK t.value e || hoElemOK e || callEntryOK t.value e)
   | _ => false
 
-/-- the element a map / filter / sort lambda is followed by -/
-def lamOpKey : Parent → Str
-  | .lmap => [77]
-  | .lfilter => [70]
-  | _ => [7777]
-
 mutual
 /-- the fragment: literals, first-order elements, the core templates, variables, `if`, `for`, `while`, break /
     continue, lambdas (plain, map, filter, sort) with the call element -/
